@@ -42,6 +42,9 @@ type Solver struct {
 	baseFns   map[string]bool
 	timeoutMs int
 	logf      *os.File
+	logw      *bufio.Writer // query stream of this solver, with its answers as comments (cross-solver check)
+	logMax    int
+	logN      int
 
 	NQueries, NSat, NUnsat, NUnknown int
 	Time                             time.Duration
@@ -81,7 +84,33 @@ func (s *Solver) start() error {
 	return nil
 }
 
+// OpenLog starts recording the query stream (at most max check-sat calls; 0 = all).
+func (s *Solver) OpenLog(path string, max int) {
+	f, err := os.Create(path)
+	if err != nil {
+		return
+	}
+	s.logf = f
+	s.logw = bufio.NewWriterSize(f, 1<<16)
+	s.logMax = max
+	// the stream so far (reset + options) is tiny: replay it
+	s.logw.WriteString("(set-option :produce-models true)\n")
+	if s.timeoutMs > 0 {
+		fmt.Fprintf(s.logw, "(set-option :timeout %d)\n", s.timeoutMs)
+	}
+}
+
+func (s *Solver) CloseLog() {
+	if s.logw != nil {
+		s.logw.Flush()
+		s.logf.Close()
+		s.logw = nil
+		s.logf = nil
+	}
+}
+
 func (s *Solver) Close() {
+	s.CloseLog()
 	if s.cmd != nil {
 		s.inRaw.Close()
 		s.cmd.Process.Kill()
@@ -91,8 +120,8 @@ func (s *Solver) Close() {
 }
 
 func (s *Solver) send(str string) {
-	if s.logf != nil {
-		s.logf.WriteString(str)
+	if s.logw != nil {
+		s.logw.WriteString(str)
 	}
 	s.recent = append(s.recent, str)
 	if len(s.recent) > 400 {
@@ -336,8 +365,8 @@ func (s *Solver) checkOnce(symTerms []*Term, extra []*Term) (SatResult, []uint64
 	s.in.Flush()
 	tq := time.Now()
 	defer func() {
-		if s.logf != nil {
-			fmt.Fprintf(s.logf, "; took %.1fms\n", float64(time.Since(tq).Microseconds())/1000)
+		if s.logw != nil {
+			fmt.Fprintf(s.logw, "; took %.1fms\n", float64(time.Since(tq).Microseconds())/1000)
 		}
 	}()
 	res := Unknown
@@ -376,6 +405,13 @@ func (s *Solver) checkOnce(symTerms []*Term, extra []*Term) (SatResult, []uint64
 	}
 	if sawErr {
 		res = Unknown
+	}
+	if s.logw != nil {
+		fmt.Fprintf(s.logw, "; answer %s\n", map[SatResult]string{Sat: "sat", Unsat: "unsat", Unknown: "unknown"}[res])
+		s.logN++
+		if s.logMax > 0 && s.logN >= s.logMax {
+			s.CloseLog()
+		}
 	}
 	var vals []uint64
 	var syms []string
